@@ -1403,6 +1403,44 @@ impl DhtCoreEngine {
     }
 }
 
+#[cfg(feature = "verif-hooks")]
+impl DhtCoreEngine {
+    /// verif: engine in the validation mode the network manager uses (LogOnly),
+    /// without background maintenance tasks.
+    pub fn verif_new_log_only(node_id: NodeId) -> Result<Self> {
+        Self::new_with_validation_mode(node_id, CloseGroupEnforcementMode::LogOnly)
+    }
+
+    /// verif: number of entries in the pending-request table.
+    pub async fn verif_pending_requests_len(&self) -> usize {
+        self.pending_requests.read().await.len()
+    }
+
+    /// verif: every id stored in the routing table, bucket by bucket (duplicates kept).
+    pub async fn verif_routing_ids(&self) -> Vec<NodeId> {
+        let routing = self.routing_table.read().await;
+        routing
+            .buckets
+            .iter()
+            .flat_map(|b| b.get_nodes().iter().map(|n| n.id.clone()))
+            .collect()
+    }
+
+    /// verif: counters of the IP-diversity gate used by `add_node`.
+    pub async fn verif_diversity_stats(&self) -> crate::security::DiversityStats {
+        self.ip_diversity_enforcer.read().await.get_diversity_stats()
+    }
+
+    /// verif: per-region counters of the geographic gate used by `add_node`.
+    pub async fn verif_region_counts(&self) -> Vec<(String, usize)> {
+        let g = self.geographic_diversity_enforcer.read().await;
+        g.region_counts
+            .iter()
+            .map(|(r, c)| (format!("{r:?}"), *c))
+            .collect()
+    }
+}
+
 // Manual Debug implementation to avoid cascade of Debug requirements
 impl std::fmt::Debug for DhtCoreEngine {
     fn fmt(&self, f: &mut std::fmt::Formatter<'_>) -> std::fmt::Result {
